@@ -917,8 +917,8 @@ class Interp:
                 set_lang(l.id, (lambda x: x & fixed) if equal else (lambda x: x - fixed))
                 return st
             # m is None / m is not None
-            if isinstance(op, (ast.Is, ast.IsNot)) and isinstance(l, ast.Name) and isinstance(r, ast.Constant) and r.value is None:
-                v = st.get(l.id)
+            if isinstance(op, (ast.Is, ast.IsNot)) and isinstance(l, (ast.Name, ast.Call)) and isinstance(r, ast.Constant) and r.value is None:
+                v = st.get(l.id) if isinstance(l, ast.Name) else self.eval(a, l, st, n)
                 isnone = pol if isinstance(op, ast.Is) else not pol
                 if isinstance(v, MatchV) and v.var is not None:
                     set_lang(v.var, (lambda x: x - v.lang) if isnone else (lambda x: x & v.lang))
